@@ -441,3 +441,7 @@ def run(ctx):
                'the response and its CRC are sent through the same symbol selection and escape block as an own command: an '
                'unescaped A9/AA in the answer ends the transfer')
     r11(ctx)
+    import rules.C11 as _c11
+    ctx.borrow(_c11.r4, {'C11.R4': 'C15.R13'},
+               'the source restriction of an answer is stored as the master number of the source: 1..25 for the 25 masters, '
+               '0 only for "any source"')
